@@ -430,6 +430,15 @@ def own_telegram_marker(chk: Check, repo: Repo) -> None:
     pg = repo.func(cm, "Cover.process_group_write")
     chk.unit(pg)
     chk.ob("own-telegrams-are-counted", pg.site(), counted, "Cover marks its own up/down telegrams " + ("by a count (armed += 1, recognised -= 1): every telegram sent is recognised once" if counted else f"with {[canon(w.stmt) for w in arm + ack]}: of two set_position() calls before the first telegram comes back the second is taken for a bus command - the auto stopper is cancelled and the calculator sent to the end position"), key="cover|own-marker")
+    # every up/down telegram set_position() sends towards an intermediate position is marked as the cover's own - with or
+    # without an auto stopper: a telegram that is not, is taken for a bus command and sends the calculator to the end position
+    sp = repo.func(cm, "Cover.set_position")
+    spc = CFG(sp.node)
+    spf = spc.must_facts()
+    sends = [n for n in spc.nodes if n.kind == "stmt" and n.ast is not None and any(call_name(c) in ("self.updown.up", "self.updown.down") for c in calls(n.ast)) and any((a.endswith(" is None") and v is False) or (a.endswith(" is not None") and v) for a, v in spf[n.id])]
+    marks = [n.id for n in spc.nodes if n.kind == "stmt" and n.ast is not None and ((isinstance(n.ast, ast.AugAssign) and isinstance(n.ast.op, ast.Add) and ast.unparse(n.ast.target) == "self._auto_stop_requested") or any(call_name(c) == "self._start_auto_stopper" for c in calls(n.ast)))]
+    okm = bool(sends) and all(spc.all_paths_hit(n.id, marks, ends=[spc.exit], edge_ok=lambda a_, b_, lab: lab != "exc") for n in sends)
+    chk.ob("every-own-telegram-is-marked", sp.site(), okm, f"Cover.set_position: {len(sends)} up/down sends towards a requested position; " + ("each is followed on every path by the own-telegram mark (directly or by arming the auto stopper)" if okm else "some path sends up/down without marking it as the cover's own - it comes back as a bus command and retargets the calculator to the end position"), key="cover|own-marked")
     cfg = CFG(pg.node)
     mf = cfg.must_facts()
     own_nodes = [n for n in cfg.nodes if n.kind == "stmt" and n.ast is not None and any(a == "self._auto_stop_requested" and v for a, v in mf[n.id])]
